@@ -188,6 +188,56 @@ def gen_ring(rng, na, ctls, cycles):
             ev += ["X", "r", "r", "r", "r"]
     return ev
 
+def cc(c, v):
+    return "C%d.%d.%d.%d" % (c[0], v, c[1], c[2])
+
+def gen_twokinds(rng, na, ctls):
+    """second controller for an address that already has one (either order),
+    values through both, unMap of one kind / both kinds in either order,
+    relearn of one kind while the other stays; fully delivered"""
+    D = ["r", "r", "n", "r", "r"]
+    ev = []
+    cs = list(ctls)
+    rng.shuffle(cs)
+    while len(cs) < 3:
+        cs.append(cs[0])
+    for _ in range(rng.choice([1, 2])):
+        a = rng.randrange(na)
+        first = rng.choice([1, 0])
+        x, y, z = cs[0], cs[1], cs[2]
+        ev += ["M%d.%d" % (a, first), "r", "r", cc(x, rng.randrange(128))] + D
+        ev += [cc(x, rng.randrange(128))]
+        ev += ["M%d.%d" % (a, 1 - first), "r", "r", cc(y, rng.randrange(128))] + D
+        for _ in range(rng.choice([2, 3, 4])):
+            ev += [cc(rng.choice([x, y]), rng.randrange(128))]
+        k = rng.choice([first, 1 - first])
+        ev += ["U%d.%d" % (a, k)] + D + [cc(x, rng.randrange(128)), cc(y, rng.randrange(128))]
+        if rng.random() < 0.6:      # relearn that kind with a third controller
+            ev += ["M%d.%d" % (a, k), "r", "r", cc(z, rng.randrange(128))] + D
+            ev += [cc(z, rng.randrange(128)), cc(x, rng.randrange(128)), cc(y, rng.randrange(128))]
+        if rng.random() < 0.5:      # map of a kind that is bound: unMap + queue in one go
+            ev += ["M%d.%d" % (a, 1 - k)] + D + [cc(x, 5), cc(y, 6), cc(z, 7)] + D
+        order = rng.choice([[1, 0], [0, 1]])
+        for kk in order:
+            ev += ["U%d.%d" % (a, kk)] + D + [cc(x, rng.randrange(128)), cc(y, rng.randrange(128)), cc(z, 9)]
+        cs = cs[1:] + cs[:1]
+    return ev
+
+def gen_clearq(rng, na, ctls):
+    """clear with a non-empty learn queue (watches delivered or still in flight)"""
+    ev = []
+    for _ in range(rng.choice([1, 2])):
+        k = rng.choice([1, 2, 3])
+        for _ in range(k):
+            ev.append("M%d.%d" % (rng.randrange(na), rng.choice([1, 1, 0])))
+        ev += ["r"] * rng.choice([0, 1, k])
+        if rng.random() < 0.4:      # one of them learned before the clear
+            ev += ["r"] * k + [cc(ctls[0], 3), "n", "r", cc(ctls[0], 4)]
+        ev += ["X"] + ["r"] * (2 * k + 3)
+        ev += [cc(c, rng.randrange(128)) for c in ctls[:3]] + ["n", "n", "r", "r"]
+        ev += ["M%d.1" % rng.randrange(na), "r", cc(ctls[-1], 7), "n", "r", cc(ctls[-1], 8)]
+    return ev
+
 def interleavings(base, ndel):
     """all histories that insert at most ndel deliveries (r/n) into base"""
     k = len(base)
@@ -250,6 +300,23 @@ def gen(rng, tier, dist):
             if fine:
                 ev.append("C6.%d.1.0" % ((v * 37 + i) % 128))
         out.append(mk_case(rng, [p, PORT_POOL[8]], ev, [(5, 1, 0), (6, 1, 0)], dist, "sweep"))
+    # second controller of an address, unMap with both kinds bound, clear with a non-empty queue
+    for i in range(400 if tier == "quick" else 6000):
+        ports = pick_ports(rng)
+        ctls = rand_ctls(rng)
+        if i % 3 < 2:
+            out.append(mk_case(rng, ports, gen_twokinds(rng, len(ports), ctls), ctls, dist, "two-kinds"))
+        else:
+            out.append(mk_case(rng, ports, gen_clearq(rng, len(ports), ctls), ctls, dist, "clear-queue"))
+    # exactly 32 controllers offered at once (the PendingQueue's capacity), over a larger table
+    for i in range(1 if tier == "quick" else 6):
+        n = 34
+        ports = [("f", "0", "1")] * n
+        ev = ["M%d.1" % a for a in range(n)] + ["r"] * n
+        ev += ["C%d.%d.1.0" % (j, rng.randrange(128)) for j in range(32)]
+        ev += ["C%d.2.1.0" % rng.randrange(32)]
+        ev += ["n"] * 33 + ["r"] * 34 + ["C%d.%d.1.0" % (j, rng.randrange(128)) for j in range(0, 34, 3)]
+        out.append(mk_case(rng, ports, ev, [(0, 1, 0), (31, 1, 0), (33, 1, 0)], dist, "capacity-32"))
     # the pending ring wraps after 32 learns
     for i in range(3 if tier == "quick" else 40):
         ports = pick_ports(rng)
@@ -475,7 +542,7 @@ RULE = ("histories over 2..4 addresses drawn from a pool of int and float ranges
         "non-representable decimal bounds, a degenerate and a tiny range) and 2..6 controllers (channel/NRPN spellings "
         "mixed, aliases of one id included): fully synchronous histories; histories quiescent at map/unMap/clear with "
         "several learns in flight; random asynchronous interleavings; D19-shaped crossings; 128-value sweeps through a "
-        "coarse(+fine) binding; 34..70 learn/unMap cycles (the 32-slot pending ring wraps); and every placement of <=3 (quick) / <=5 (thorough) deliveries into short histories. "
+        "coarse(+fine) binding; second-controller / both-kinds / clear-with-queue histories; 32 controllers offered at once; 34..70 learn/unMap cycles (the 32-slot pending ring wraps); and every placement of <=3 (quick) / <=5 (thorough) deliveries into short histories. "
         "Each history ends with a drain and two values per controller. Non-trivial = Spec holds, >=2 assignments and "
         ">=2 parameter messages.")
 TRUSTED = ["harness/h_C20.cpp: real MidiMappernRT + MidiMapperRT, rt_cb / frontend queued by the harness, nRT->RT messages "
@@ -503,8 +570,13 @@ LEVEL_TEXT = ("For every history (unbounded) of map/unMap/clear/CC/deliveries th
               "every callback sends to its own address a value in [min,max] that grows with the 14-bit input "
               "(C20_bijection_*_partial, from stated IEEE rounding facts). The unrestricted statement is refuted by a computed "
               "witness (C20_refuted = D19, reproduced on the code, known finding). All theorems closed under the global context.")
-LEVEL_NOTE = ("Not proved: consistency of inv_map with the index vectors over all histories (hence crash-freedom and the "
-              "second-controller-of-an-address case), and the rounding facts for the executable rnd; both are covered by the "
+LEVEL_NOTE = ("Stage 2: the system invariant Inv (inv_map / mapping / callback / value vectors and every snapshot consistent) is "
+              "preserved by every event of a quiescent history and makes every step defined (C20_inv_init, C20_inv_step, "
+              "C20_quiescent_crash_free_partial); C20_learn_oldest covers the second controller of an address; "
+              "C20_refines_spec_partial: records of the model = records of the abstract specification (finite map + FIFO) on "
+              "every quiescent history, up to the value a message carries.  "
+              "Not proved: preservation of the 14-bit composition across cloneValues (value part of the refinement), "
+              "and the rounding facts for the executable rnd; both are covered by the "
               "correspondence run (model = code on every generated history incl. all placements of <=3/<=5 deliveries into short "
               "histories, every state field compared) and the independent Spec oracle only. Side condition = classifier "
               "bind-crosses-use-cc. See notes/C20.md.")
